@@ -52,7 +52,7 @@ def rules(rep, m):
         a2 = [xcx.canon(x) for x in kids(c)[1:]]
         tgt = "&%s->queue->heap[cmi_hash_find_index(&%s->queue, %s)]" % (pos.params[0]["name"], pos.params[0]["name"],
                                                                            pos.params[1]["name"])
-        if callee.lstrip("*").endswith("->heap_compare") and len(a2) == 2 and "heap[" in a2[0] and \
+        if callee.lstrip("*").endswith("heap_compare") and len(a2) == 2 and "heap[" in a2[0] and \
                 (a2[1].replace("(", "").replace(")", "").startswith(("&" + pos.params[0]["name"]))
                  or "find_index" in a2[1]) and inv.in_loop(pos, c):
             good = True
